@@ -62,4 +62,14 @@ theorem eq_dropLast_append_of_getLast? {α} {l : List α} {a : α} (h : l.getLas
   obtain ⟨ys, rfl⟩ := List.getLast?_eq_some_iff.mp h
   simp
 
+theorem head?_dropWhile_not {α} (q : α → Bool) (L : List α) (ch : α)
+    (h : (L.dropWhile q).head? = some ch) : q ch = false := by
+  induction L with
+  | nil => simp at h
+  | cons x xs ih =>
+    by_cases hx : q x = true
+    · simp only [List.dropWhile_cons, hx, if_true] at h; exact ih h
+    · simp only [List.dropWhile_cons, hx] at h
+      simp at h; subst h; simpa using hx
+
 end Gv.Str
